@@ -154,6 +154,8 @@ class LineSet(primitive.Primitive):
         return len(self.index)
 
     def __getitem__(self, i):
+        if self._vertex_index is None:
+            raise IndexError('index %s is out of range: the line set is empty' % (i,))
         v = self._vertex[self._vertex_index[i]]
         if self._normal is None:
             n = None
@@ -234,6 +236,8 @@ class BoundLineSet(primitive.BoundPrimitive):
         return len(self.index)
 
     def __getitem__(self, i):
+        if self._vertex_index is None:
+            raise IndexError('index %s is out of range: the line set is empty' % (i,))
         v = self._vertex[self._vertex_index[i]]
         if self._normal is None:
             n = None
